@@ -179,10 +179,10 @@ def _stack_sym(arrs):
     return symnp.array([a.tolist() for a in arrs])
 
 
-def targets():
+def targets(all_pairs=False):
     T = []
     for p in PAIRS:
-        if not p.trace:
+        if not p.trace and not all_pairs:
             continue
         T.append(Target(f'C07_{p.name}_s', p.inputs, (lambda A, v, p=p: p.s(A, *[_sym_group(v, g) for g in p.groups])),
                         max_paths=p.max_paths, doc=f'scalar entry point of twin {p.name}. {p.doc}'))
@@ -194,6 +194,10 @@ def targets():
                             (lambda A, v, p=p: p.b(A, *[_stack_sym([_sym_group(v, g, OTHER), _sym_group(v, g)]) for g in p.groups])[1]),
                             max_paths=p.max_paths, doc=f'array entry point of twin {p.name} on a two-row batch, row 1'))
     return T
+
+
+def targets_all():
+    return targets(all_pairs=True)
 
 
 STAGES = [
